@@ -290,8 +290,8 @@ func (p *Program) MutateMany(files map[string][]byte, desc string) (*Program, er
 		texts[k] = v
 	}
 	for f, src := range abs {
+		texts[f] = src // ReadFile serves the mutated content of Go files too (the normaliser re-reads sources)
 		if !strings.HasSuffix(f, ".go") {
-			texts[f] = src
 			delete(abs, f)
 		}
 	}
